@@ -300,7 +300,6 @@ func c13pairs(g *G, seed int64, exhLen int, nRandom int, f func(left, right []st
 	}
 }
 
-
 func init() {
 	register(&Stream{
 		Name: "C13",
